@@ -15,7 +15,7 @@ if [ -n "${SKIP_SUITE:-}" ]; then ( cd "$WT" && go build ./... ) > /tmp/try-suit
 if [ -s /tmp/try-suite-$(basename "$D").log ]; then echo "SUITE NOT GREEN:"; head -20 /tmp/try-suite-$(basename "$D").log; else echo "suite green with the change"; fi
 for c in "$@"; do
   echo "--- $c"
-  VERIF_REPO="$WT" ./run.sh "$c" quick 2>&1 | grep "signature\|SUMMARY\|INCONCLUSIVE\|KNOWN" | sed 's/^ *//' | cut -c1-200 | sort | uniq -c | sort -rn | head -60
+  VERIF_REPO="$WT" ./run.sh "$c" quick 2>&1 | grep -a "signature\|SUMMARY\|INCONCLUSIVE\|KNOWN" | sed 's/^ *//' | cut -c1-200 | sort | uniq -c | sort -rn | head -60
 done
 git -C /repo worktree remove --force "$WT"
 tag=$(echo "$WT" | md5sum | cut -c1-8); rm -rf .out/alt-$tag .bin/*-alt-$tag* ; rm -f /tmp/try-suite-$(basename "$D").log
